@@ -60,7 +60,7 @@ pub fn run(prop: &str, args: &Args, rep: &mut Report) {
         env.enabled = P_C01 | P_C05 | P_C06 | P_C10 | P_C11 | P_C13 | P_C15 | P_C16;
     }
     let cfgs = configs(args.thorough);
-    let max_states: usize = args.scaled(if args.thorough { 1_500_000 } else { 60_000 }) as usize;
+    let max_states: usize = args.scaled(if args.thorough { 800_000 } else { 60_000 }) as usize;
     let prop_s = prop.to_string();
     run_cases(args, prop, cfgs.len() as u64, rep, &mut |ci, rep| {
         if !mine(args, ci) {
